@@ -1318,6 +1318,26 @@ dec_mod.Decimal = DecShim
 dec_mod.InvalidOperation = _rd.InvalidOperation
 dec_mod.__file__ = "<symx decimal shim>"
 
+math_mod = types.ModuleType("math")
+for _n in dir(_math):
+    if not _n.startswith("__"):
+        setattr(math_mod, _n, getattr(_math, _n))
+math_mod.__file__ = "<symx math shim>"
+
+
+def _shim_isclose(a, b, *, rel_tol=1e-09, abs_tol=0.0):
+    """math.isclose on stand-in numbers, with CPython's definition: |a-b| <= |rel_tol*b| or |a-b| <= |rel_tol*a| or <= abs_tol"""
+    if not any(isinstance(x, (_RatLike, SymInt)) for x in (a, b)):
+        return _math.isclose(a, b, rel_tol=rel_tol, abs_tol=abs_tol)
+    fa, fb = FloatShim(a), FloatShim(b)
+    if fa == fb:
+        return True
+    diff = abs(fa - fb)
+    return bool(diff <= abs(FloatShim(rel_tol) * fb)) or bool(diff <= abs(FloatShim(rel_tol) * fa)) or bool(diff <= FloatShim(abs_tol))
+
+
+math_mod.isclose = _shim_isclose
+
 _real_import = builtins.__import__
 
 
@@ -1327,6 +1347,8 @@ def shim_import(name, globals=None, locals=None, fromlist=(), level=0):
             return frac_mod
         if name == "decimal":
             return dec_mod
+        if name == "math":
+            return math_mod
     return _real_import(name, globals, locals, fromlist, level)
 
 
